@@ -186,6 +186,18 @@ class LinAlg:
             st.env["self.oshape"] = vn.ev(b["oshape"], st)
             st.env["self.ishape"] = vn.ev(b["ishape"], st)
             return NONE
+        # super()._normal_linop() / super()._adjoint_linop(): the base class's method evaluated on the same operator
+        if (isinstance(f, ast.Attribute) and f.attr in ("_normal_linop", "_adjoint_linop") and isinstance(f.value, ast.Call)
+                and isinstance(f.value.func, ast.Name) and f.value.func.id == "super" and not call.args):
+            bf = self.M.method(self.base, f.attr, inherit=False)
+            if bf is not None and self.depth <= 6:
+                self.depth += 1
+                try:
+                    outs = [o for o in self.vn(bf).run(bf.body, State(st.env, st.conds)) if o.status == "return"]
+                finally:
+                    self.depth -= 1
+                if len(outs) == 1:
+                    return outs[0].ret
         if vn.func is None:
             return None
         tgt = self.M.resolve_call(vn.func, call)
